@@ -165,6 +165,7 @@ pub fn run(a: &Args) {
             let key = keys[(ci + oi * 2) % keys.len()];
             let (text, ival) = opt_text(class, &mut r);
             argv.push(if class == "noeq" { format!("{}-novalue", key) } else { format!("{}={}", key, text) });
+            let class = if class == "int" && text.starts_with('+') { "plusint" } else { class };
             opts_j.push(json!({"k": hexs(key.as_bytes()), "text": hexs(text.as_bytes()), "class": class, "ival": ival}));
         }
         {
